@@ -3,7 +3,8 @@
 //! sample SRTT = R, RTTVAR = R / 2), tolerance 1e-5 relative + 1 microsecond as the property states.
 //! Bound: 6 configurations (RTO 500 / 250.75 / 1000 ms x granularity 1 / 100 / 0.25 ms) x 9 delay patterns of up to 40
 //! transactions (constant, alternating, ramp, sub-millisecond parts, delays beyond the first retransmission, idle gaps of
-//! 599 / 600 / 601 s between consecutive requests).
+//! 599 / 600 / 601 s between consecutive requests). Reliable transport (C06): three configured time-outs, five answered
+//! transactions then one unanswered: every request gets the configured time-out and fails exactly at it.
 use std::time::{Duration, Instant};
 use stun_agent::{RttConfig, StunAttributes, StunClient, StunClientEvent, StunClienteBuilder, TransportReliability};
 use stun_rs::methods::BINDING;
@@ -113,6 +114,31 @@ fn main() {
             if bad >= 3 { break; }
         }
         if bad >= 3 { break; }
+    }
+    // reliable transport (C06): one transmission, the configured time-out for every request, whatever earlier transactions did
+    for timeout_ms in [5_000u64, 39_500, 250] {
+        n += 1;
+        let timeout = Duration::from_millis(timeout_ms);
+        let mut c = StunClienteBuilder::new(TransportReliability::Reliable(timeout)).build().expect("build");
+        let t0 = Instant::now();
+        let mut now = us(0);
+        for k in 0..6 {
+            let (id, got) = send(&mut c, t0 + now);
+            if got != Some(timeout) {
+                println!("WITNESS: reliable transport, configured time-out {:?}: request {} (after {} answered transactions) is given a timer of {:?}", timeout, k, k, got);
+                bad += 1; break;
+            }
+            if k < 5 { respond(&mut c, id, t0 + now + us(100_000)); now += us(150_000); continue; }
+            // the last request is left unanswered: nothing before the deadline, failure exactly at it, no retransmission
+            c.on_timeout(t0 + now + timeout - us(1_000));
+            let early: Vec<String> = c.events().iter().filter(|e| !matches!(e, StunClientEvent::RestransmissionTimeOut(_))).map(|e| format!("{:?}", e).chars().take(60).collect()).collect();
+            c.on_timeout(t0 + now + timeout);
+            let at: Vec<String> = c.events().iter().map(|e| format!("{:?}", e).chars().take(60).collect()).collect();
+            if !early.is_empty() || !at.iter().any(|e| e.starts_with("TransactionFailed")) || at.iter().any(|e| e.starts_with("OutputPacket")) {
+                println!("WITNESS: reliable transport, configured time-out {:?}: events 1 ms before the deadline {:?}, at the deadline {:?}", timeout, early, at);
+                bad += 1;
+            }
+        }
     }
     if bad == 0 { println!("ok: {} configuration x pattern runs follow the RFC 6298 reference within 1e-5 + 1 us", n); } else { std::process::exit(1); }
 }
